@@ -394,6 +394,26 @@ def check_numbering(ctx, F, rule="E-DDDMP.numbering"):
     elif dec[0] > store[0]:
         fails.append("the support-variable index is stored before the counter is decremented: indices run 1..=nsuppvars instead "
                      "of 0..nsuppvars")
+    # node ids: `nnodes += 1` before `*idx = nnodes` in every block that numbers nodes (ids 1..=n; 0 marks a terminal's
+    # child list in the node table)
+    pairs = 0
+    for blk in H.walk(F.hir[fid]["body"]):
+        if blk.get("k") != "block":
+            continue
+        inc = st_ = None
+        for i, st in enumerate(blk.get("s", [])):
+            e = st.get("e") or {}
+            if e.get("k") == "assignop" and str(e.get("o", "")).startswith("+") and inc is None:
+                inc = (i, H.root_local(e["l"]))
+            if e.get("k") == "assign" and e["l"].get("k") == "un" and st_ is None:
+                st_ = (i, H.root_local(e["r"]))
+        if inc and st_ and inc[1] == st_[1]:
+            pairs += 1
+            if inc[0] > st_[0]:
+                fails.append("a node id is stored before the counter is incremented: ids start at 0, which the format reserves "
+                             "(a 0 in a child list marks a terminal)")
+    if pairs < 2:
+        fails.append("expected the two node-numbering blocks (terminals, inner nodes) with `n += 1; *idx = n`, found %d" % pairs)
     ctx.ob(rule, rule, not fails, "export_common (%s): %s" % (F.where(fid), " || ".join(fails) if fails else
-                                                             "levels numbered bottom-up, support-variable index pre-decremented"))
+                                                             "levels numbered bottom-up from 1, support-variable index pre-decremented"))
     return 1
